@@ -10,9 +10,9 @@ claim("C02", "proof",
       "Trusted: rustc MIR building, mirfacts, zxwalk. Not decided: when the machine asserts INT (C05).",
       "DESIGN.md §3 C02")
 claim("C01", "other",
-      "abstract interpretation of MIR per opcode (SCCP) + evaluated-constant tables + sibling comparison + bit provenance",
-      "Clause-limited: decode totality of all 1792 encodings (no reachable panic), flag lookup tables equal arithmetic closed forms, DD/FD in front of non-HL opcodes is a timing-only prefix (sibling comparison of traces and final states), undefined ED = NOP, MEMPTR provenance for LD (rr|nn),A / OUT (n),A.",
-      "Not decided: arithmetic results and affected-flag values of ALU/rotate/block instructions (value-level) unless the exact-semantics clause (D6) is armed. Trusted: rustc MIR, mirfacts, zxwalk, term equivalence by truth table over extracted closed forms.",
+      "abstract interpretation of MIR per opcode (SCCP) yielding closed-form terms of every final register/flag/bus event; equivalence of those terms with a symbolic Z80 reference by exhaustive finite-domain tabulation under path constraints, ripple-carry normal form and cut points for wide adders; evaluated-constant tables; sibling comparison; bit provenance",
+      "For each of the 1780 non-prefix encodings and every path of Z80::emulate: all final registers, F (all 8 bits), MEMPTR, Q, PC, SP, IFF1/2, interrupt mode, HALT/EI state and the ordered memory/port accesses with addresses and data equal the documented NMOS Z80 result for all operand values (64 708 equalities proved, none open), incl. the flags of a repeated block iteration; decode totality (no reachable panic), flag tables = closed forms, DD/FD in front of non-HL opcodes timing-only, undefined ED = NOP.",
+      "Level 'other': the reference model (oracle/z80sem.py) is written from the documentation by the same author and is trusted; instruction *sequences* are covered only through MEMPTR/Q being part of the compared state. An equality the procedure cannot decide is reported as OPEN (none on this tree), a difference only with a concrete witness. Trusted: rustc MIR, mirfacts, zxwalk, zx/term.py + zx/cec.py.",
       "DESIGN.md §3 C01")
 claim("C04", "other",
       "constant propagation through the spec builders + extraction of the delay function as a piecewise closed form tabulated against the documented formula + path-sensitive effect traces of the controller's bus methods",
@@ -25,8 +25,8 @@ claim("C05", "other",
       "Not decided: exactly one interrupt per frame (depends on the program).",
       "DESIGN.md §3 C05")
 claim("C06", "proof",
-      "path-sensitive abstract interpretation (guards, bit provenance of the paging value, address arithmetic by term equivalence) + mod-ref / who-may-call over the resolved call graph",
-      "write_7ffd guard and bit fields, initial maps and constructor model choice, ZXMemory::read/write address arithmetic and ROM write protection, and the frozen writer/caller sets of the memory map, ROM vector and paging latch.",
+      "path-sensitive abstract interpretation (guards, bit provenance of the paging value, address arithmetic by term equivalence) + mod-ref / who-may-reach over the resolved call graph, stated over the API surface (public Emulator methods and the CPU bus implementation)",
+      "write_7ffd guard and bit fields, initial maps and constructor model choice, ZXMemory::read/write address arithmetic and ROM write protection, and the sets of API entry points from which the memory map, ROM vector, RAM vector and paging latch can be written.",
       "Trusted: rustc MIR, mirfacts, zxwalk, finite-domain term equivalence. The 48K machine ignoring paging writes is decided by C07 (machine guard in write_io) plus the constructor's paging_enabled = false.",
       "DESIGN.md §3 C06")
 claim("C07", "proof",
@@ -35,7 +35,7 @@ claim("C07", "proof",
       "Addresses where the statement does not single out one device (several cubes overlap, or the mouse outside xxDF-style addresses) are not compared. The floating-bus byte value is not decided.",
       "DESIGN.md §3 C07, Appendix A.2")
 claim("C08", "other",
-      "term equivalence of the address-decode functions; path-sensitive interpretation of the render loop body for a symbolic block; must-pass-through (CFG) pairing of every RAM mutation with a shadow-screen update; constant tables",
+      "term equivalence of the address-decode functions; path-sensitive interpretation of the render loop body for a symbolic block; must-pass-through (CFG) pairing of every RAM mutation with a shadow-screen update; effect trace of the resynchronisation routine (every screen page of the machine, byte for byte); constant tables",
       "Address decode, attribute fields, ink/paper/flash selection, pixel bit and position in the render loop, update() ranges and indices, flash period, buffer swap, bank table, and shadow coherence of every RAM mutator reachable from the API.",
       "Not decided: the beam-relative clause (write before/after the beam appears this/next frame) - numeric relation of two counters.",
       "DESIGN.md §3 C08")
@@ -45,12 +45,12 @@ claim("C09", "other",
       "The repaint after an SZX load that stores the border directly is judged under C14.",
       "DESIGN.md §3 C09")
 claim("C10", "other",
-      "decision table of the trap condition; path-sensitive interpretation of fast_load_tap with block/memory/RET accesses as effects, each completing exit compared with the documented LD-BYTES algorithm followed along the path's own decisions",
-      "Trap condition and serving guard; one block per request; no-block exit leaves all registers untouched; every completing exit performs one RET with IX/DE/carry and the LOAD stores / VERIFY reads the documented algorithm gives for the same decisions (byte loop explored to depth 3).",
+      "decision table of the trap condition; path-sensitive interpretation of fast_load_tap with block/memory/RET accesses as effects, each completing exit compared with the documented LD-BYTES algorithm; inductive invariant of the TAP block reader with a ghost file position, decided by linear-arithmetic entailment (Fourier-Motzkin) over path facts",
+      "Trap condition and serving guard; one block per request; no-block exit leaves all registers untouched; every completing exit performs one RET with IX/DE/carry and the LOAD stores / VERIFY reads the documented algorithm gives for the same decisions; block framing: a header is read only when exactly the previous block's bytes have been taken from the asset, on every path of every writer of the reader's window (T-INV).",
       "Not decided: equality with the ROM routine for all blocks/requests beyond the explored loop depth (the loop body is the same each iteration, but no inductive argument is made).",
       "DESIGN.md §3 C10")
 claim("C11", "proof",
-      "transition table of Tap::process_clocks extracted by abstract interpretation per pulse state (symbolic counter/mask/byte) and compared with the standard waveform table; guard on the delay countdown",
+      "transition table of Tap::process_clocks extracted by abstract interpretation per pulse state (symbolic counter/mask/byte) and compared with the standard waveform table; delay countdown decided by linear arithmetic; inductive window invariant of the block reader (T-INV)",
       "All 8 states x data conditions: pulse lengths, toggles, successor states, pilot counts by flag byte, MSB-first bit order, pause, end of tape; countdown stores only 0 or delay-clocks; stopped deck inert.",
       "Upper jitter bound and equivalence with fast loading are not claimed.",
       "DESIGN.md §3 C11")
@@ -80,22 +80,22 @@ claim("C20", "other",
       "Not decided: transposition in Vtx::load and the total sample count (no induction over the loop).",
       "DESIGN.md §3 C20")
 claim("C16", "other",
-      "intraprocedural taint of stopwatch readings; mod-ref isolation of sound-generation state over the resolved call graph; who-may-call on LoadableAsset::read; path-sensitive check of read_exact; absence scan with a positive control",
-      "Stopwatch readings reach only the limit comparison and EmulationInfo.duration; no field written by sound generation is read outside its call closure; AY port-visible registers are not written by generation; read() only behind read_exact/adapters and read_exact tolerates short reads; no nondeterministic API outside the host stopwatch.",
+      "intraprocedural taint of stopwatch readings; mod-ref isolation of sound-generation state over the resolved call graph; who-may-call on LoadableAsset::read; path-sensitive check of read_exact; per-step effect pairing of emulate_frames (events taken from the controller are acted upon before the step ends); absence scan with a positive control",
+      "Stopwatch readings reach only the limit comparison and EmulationInfo.duration; no field written by sound generation is read outside its call closure; AY port-visible registers are not written by generation; read() only behind read_exact/adapters and read_exact tolerates short reads; a breakpoint stop never drops another event taken in the same step (stop-and-resume transparency); no nondeterministic API outside the host stopwatch.",
       "Not decided: bit-identical audio under different drain patterns (excluded by the statement). The call graph over-approximates unresolved trait calls with generic Self.",
       "DESIGN.md §3 C16")
 claim("C13", "other",
-      "path-sensitive interpretation of sna::save and sna::load with the asset/recorder as effects: offset<->role tables through the exx/swap choreography, RAII guard pairing on every exit, must-definition of CPU execution state and paging latch/lock",
+      "path-sensitive interpretation of sna::save and sna::load with the asset/recorder as effects: offset<->role tables through the exx/swap choreography, RAII guard pairing on every exit, must-definition of CPU execution state and paging latch/lock; effect trace of the screen resynchronisation routine",
       "SNA header maps for save and load, side-effect freedom of save on every exit (registers, stack bytes, no bus time), load independence from the receiving machine's state (halt, EI, prefix, paging lock), bank order, PC on stack (48K) / extension (128K).",
       "Not decided: RAM contents byte for byte (opaque asset bytes). Both machines, all recorder/asset failure points.",
       "DESIGN.md §3 C13")
 claim("C14", "other",
-      "path-sensitive interpretation of the three loaders (one SZX chunk per path): model-guard dominance, chunk layout tables by term equivalence, must-definition per chunk arm, pairing of AY register stores with generator writes",
+      "path-sensitive interpretation of the three loaders (one SZX chunk per path, arm identified by the parser entered): model-guard dominance, chunk layout tables by term equivalence, must-definition per chunk arm, pairing of AY register stores with generator writes; effect trace of the screen resynchronisation routine",
       "Model guards of SNA/SZX/SCR, Z80R 37-byte map incl. flags and execution state, SPCR paging/lock/border/speaker without emulated time, AMXM, RAMP renumbering and page existence, unknown chunks inert, AY set_regs forwarding, SCR target page and refresh.",
       "Not decided: equality of behaviour of two encodings, zlib correctness, KEYB (not listed by the statement).",
       "DESIGN.md §3 C14")
 claim("C15", "other",
-      "potential-panic inventory: path-sensitive interpretation of every loader entry with the asset as an opaque source of bytes, lengths and failures; sites discharged by constants, dominating branch conditions and operand intervals, the rest matched against a reviewed table; allocation-taint rule; EOF/no-progress loop rule",
+      "potential-panic inventory: path-sensitive interpretation of every loader entry with the asset as an opaque source of bytes, lengths and failures; sites discharged by constants, dominating branch conditions, operand intervals and linear-arithmetic entailment between symbolic quantities; the TAP reader's sites by a proved inductive invariant (all exits incl. I/O errors); the rest matched against a reviewed table; allocation-taint rule; EOF/no-progress loop rule",
       "All loader entry points (SNA, SZX, SCR, TAP deck, fast loader, ROM loader, BufferCursor, read_exact, VTX load, Player::new) on both machines: no undischarged assert/index/range/copy-length/panic site outside the reviewed table, no unbounded asset-sized allocation, no read loop that spins at end of data.",
-      "Not decided: time/memory of external decompressors (no MIR), 'still emulates afterwards' beyond validated field values. Reviewed-table entries rest on stated invariants (reviewed_sites.txt).",
+      "Not decided: time/memory of external decompressors (no MIR), 'still emulates afterwards' beyond validated field values and the TAP window invariant. Reviewed-table entries (6) rest on stated invariants (reviewed_sites.txt).",
       "DESIGN.md §3 C15")
